@@ -778,8 +778,28 @@ def apply_contract(E, c, st, args, kwargs):
         s0.frames.append(_spec_frame(s0, env, module, None, cls))
         for o in _apply_bound(E, c, s0, env, module, where):
             o[1].frames.pop()
+            if o[0] == 'val':
+                _after_call(E, c, o[1], o[2])
             outs.append(o)
     return outs
+
+
+def _after_call(E, c, st, rv):
+    """opt-in (option after_call = {callee target: {k: [clauses]}} of the contract UNDER VERIFICATION): intermediate assertions in
+    the caller's frame right after the k-th (1-based, per path) application of that callee's contract in the function under
+    verification itself; `result` denotes the value returned by the call.  Each clause is an obligation (kind assert_after_call),
+    then a hypothesis (proof stepping, DESIGN 2.2 assert_at): the path condition is still short there, so a broken step gives a
+    definite counter-model."""
+    hooks = (E.options.get('after_call') or {}).get(c.target)
+    act = E.registry.active if E.registry is not None else None
+    if not hooks or act is None or not st.frames or st.frame.func is None or st.frame.func.qualname != act.target:
+        return
+    key = '_calls:' + c.target
+    k = st.ghost.get(key, 0) + 1
+    st.ghost[key] = k
+    for cl in hooks.get(k, []):
+        g = eval_clause(E, cl, st, {'result': rv})
+        E.oblige(st, g, 'assert_after_call', 'after call %d of %s' % (k, c.target), {'clause': cl})
 
 
 def _apply_bound(E, c, st, env, module, where):
